@@ -47,6 +47,7 @@ func run(c *Ctx) {
 	ml.RecordOutcome(c, ml.ScWorkerLostWakeup("rtpdemuxer.beforePop", "rtp.(*Demuxer).process"), "c03")
 	ml.RecordOutcome(c, ml.ScWorkerLostWakeup("flvmuxer.beforePop", "flv.(*Muxer).process"), "c03")
 	ml.RecordOutcome(c, ml.ScWorkerLostWakeup("tsmuxer.beforePop", "mpegts.(*Muxer).process"), "c03")
+	ml.FlvWireRuns(c)
 	ns := c.Budget(6, 60)
 	var traces []string
 	for i := 0; i < ns; i++ {
